@@ -578,6 +578,11 @@ func (s *State) evalBuiltin(node *ast.Builtin) object.Object {
 	switch t {
 	case token.CATCH:
 		isError := rt == object.ERROR
+		if isError && s.Context != nil && s.Context.Err() != nil {
+			// The evaluation was cancelled or its deadline expired: not something to catch and go on from
+			// (every level of a deep recursion would, each failing again at its next step).
+			return val
+		}
 		if isError {
 			val = object.String{Value: val.(object.Error).Value}
 		}
